@@ -62,6 +62,37 @@ def is_static(v, kind=None):
     return v.t[0] == "static" and (kind is None or v.t[1] == kind)
 
 
+class IncSolver:
+    """Incremental solver over the quantifier-free part of a growing path condition."""
+
+    def __init__(self, timeout_ms=300, small_only=False):
+        self.s = z3.Solver()
+        self.s.set("timeout", timeout_ms)
+        self.ids = []
+        self.small_only = small_only
+
+    def check(self, pc, extra):
+        from .engine import qf_part
+        qf = qf_part(pc, self.small_only)
+        ids = [f.get_id() for f in qf]
+        n = len(self.ids)
+        if n <= len(ids) and self.ids == ids[:n]:
+            for f in qf[n:]:
+                self.s.add(f)
+        else:
+            self.s.reset()
+            self.s.set("timeout", 300)
+            for f in qf:
+                self.s.add(f)
+        self.ids = ids
+        self.s.push()
+        try:
+            self.s.add(extra)
+            return self.s.check()
+        finally:
+            self.s.pop()
+
+
 class Ctx:
     """Per-function verification context: sorts, fresh names, field table, obligations."""
 
@@ -73,6 +104,10 @@ class Ctx:
         self.tags = set()
         self.bound_stack = []                 # quantified contexts (comprehension bodies)
         self.dsolver = z3.Solver()
+        self.inc = IncSolver()
+        self.inc_small = IncSolver(small_only=True)
+        self.neg_distinct = {}
+        self.type_ids = {}
 
     # ---- sorts ------------------------------------------------------------------------------------------
     def fsort(self):
@@ -155,6 +190,12 @@ class State:
     def assume(self, f):
         if z3.is_true(f):
             return
+        if z3.is_and(f):
+            for c in f.children():       # conjuncts separately: quantifier-free ones stay visible to the path solver
+                self.assume(c)
+            return
+        if self.pc and any(f.get_id() == g.get_id() for g in self.pc[-40:]):
+            return
         self.pc.append(f)
 
     # ---- heap maps --------------------------------------------------------------------------------------
@@ -191,14 +232,13 @@ class State:
             L, last = hit
             if L <= len(self.pc) and (L == 0 or self.pc[L - 1] is last):
                 return True
-        s = self.ctx.dsolver
-        s.reset()
-        s.set("timeout", 200)
-        s.add(*self.pc)
-        s.add(d)
-        if s.check() == z3.unsat:
+        neg = self.ctx.neg_distinct.get(key)
+        if neg is not None and neg == len(self.pc):
+            return False
+        if self.ctx.inc_small.check(self.pc, d) == z3.unsat:
             self.dcache[key] = (len(self.pc), self.pc[-1] if self.pc else None)
             return True
+        self.ctx.neg_distinct[key] = len(self.pc)
         return False
 
     def field_type(self, fname):
@@ -207,7 +247,16 @@ class State:
             raise Unsupported(f"field '{fname}' has no declared type")
         return parse_type(ft)
 
+    def type_tag(self, v):
+        """python's dynamic typing: sequences of different element types are different objects.  ltype(ref) is a
+        global tag function; every typed sequence value met on the path gets its tag."""
+        if v.t[0] in ("list", "nd") and v.z is not None:
+            tid = self.ctx.type_ids.setdefault(show(v.t), len(self.ctx.type_ids) + 1)
+            f = z3.Function("ltype", z3.IntSort(), z3.IntSort())(v.z) == tid
+            self.assume(z3.Implies(z3.Not(v.none), f) if v.none is not None else f)
+
     def _wf_ref(self, v):
+        self.type_tag(v)
         if v.t[0] == "enum" and v.z is not None:
             self.assume(z3.And(v.z >= 0, v.z < len(ENUMS[v.t[1]])))
         if is_ref(v.t) and v.z is not None:
@@ -250,8 +299,11 @@ class State:
             self.heap["fnone_" + fname] = z3.Store(nm, obj.z, isnone)
             if val.t[0] == "none":
                 return
-        elif val.t[0] == "none" or val.none is not None:
+        elif val.t[0] == "none":
             raise Unsupported(f"None stored into non-optional field {fname}")
+        elif val.none is not None:
+            if self.ctx.inc.check(self.pc, val.none) != z3.unsat:
+                raise Unsupported(f"possibly-None value stored into non-optional field {fname}")
         m = self.map("f_" + fname, self.ctx.sort_of(t))
         self.heap["f_" + fname] = z3.Store(m, obj.z, self.coerce(val, t).z)
 
@@ -333,6 +385,7 @@ class State:
     def new_seq(self, et, kind="list", length=None, elems=None, base="lst") -> V:
         r = self.new_ref(base)
         v = V((kind, et), r)
+        self.type_tag(v)
         if length is None:
             length = z3.IntVal(0)
         if elems is None:
